@@ -31,6 +31,7 @@ func c02(c *core.Check) {
 	c02SpanningResume(c)
 	c02FirstLetter(c)
 	c02PrefixAppend(c)
+	c02EarlierBreakKeys(c)
 }
 
 func isResumeStack(t types.Type) bool {
